@@ -63,6 +63,10 @@ def gen_cases(tier, seed):
         if sub == "c12":
             # the compiled derivative with the Wang term on low-symmetry polar cells (Born tensors without any symmetry) must be among the cases
             low = [c for c in cs if c.get("kind") == "deriv" and c.get("nac") == "wang" and c.get("lang") == "C" and c["crystal"]["name"] in ("tric2", "tric3")][:2]
+            # ... and so must a centred cell whose atoms are listed interleaved (lattice images of a primitive atom not contiguous in the supercell)
+            ilv = [c for c in cs if c.get("kind") == "deriv" and c.get("lang") == "C" and c.get("pmat") == "centring" and c["crystal"].get("order") in ("interleave", "random")
+                   and c["crystal"]["name"] in ("rocksalt", "zincblende", "diamond", "fcc", "perovskite", "cscl")][:2]
+            low = low + [c for c in ilv if c not in low]
             pick = low + [c for c in pick if c not in low][:per]
         if sub == "c05":
             # tolerance arithmetic of the two smallest-vector kernels: near-tie inputs for the dense and for the sparse kernel must be among the cases
